@@ -31,7 +31,7 @@ def P(lines, opts):
 
 
 def gen(rng, tier, i):
-    cls = rng.choice(('runtime', 'runtime', 'runtime', 'queue', 'queue', 'worker', 'timer', 'console'))
+    cls = rng.choice(('runtime', 'runtime', 'runtime', 'queue', 'queue', 'worker', 'timer', 'console', 'qclear'))
     opts = {'sched_seed': rng.randint(1, 1 << 40), 'c19_class': cls}
     if rng.random() < 0.3: opts['spurious_pct'] = rng.choice((5, 20))
     L = []
@@ -73,11 +73,28 @@ def gen(rng, tier, i):
             L.append('t 0 sleep 5000')
             for _ in range(total + 2): L.append('t 0 deq')
         L.append('t 0 qstats')
+    elif cls == 'qclear':
+        # writers that block on a full queue, and a consumer that only ever empties it with clear(): every clear makes room, so
+        # every writer must get through (judged: the scenario terminates)
+        opts['queue_capacity'] = rng.randint(1, 3)
+        opts['queue_flags'] = 2
+        nprod = rng.randint(1, 3); total = 0
+        for t in range(1, nprod + 1):
+            for _ in range(rng.randint(2, 6)):
+                total += 1; L.append('t %d enq c%d_%d' % (t, t, total))
+        for _ in range(total + 2):
+            L.append('t 0 sleep %d' % rng.choice((50, 300, 2000)))
+            L.append('t 0 qclear')
+        L.append('t 0 sleep 5000'); L.append('t 0 qclear'); L.append('t 0 qstats')
     elif cls == 'worker':
         if rng.random() < 0.35:
             # the worker procedure returns on its own (before or after anybody asks it to stop)
             opts['worker_exit_after'] = rng.choice((0, 1, 3, 40))
         L.append('t 0 wcreate')
+        if 'worker_exit_after' not in opts and rng.random() < 0.3:
+            # a timed join before anybody asked the worker to stop (perhaps before its thread has run at all): it must time out
+            if rng.random() < 0.5: L.append('t 0 yield')
+            L.append('t 0 wjoin %d' % rng.choice((0, 30, 30, 500)))
         r = rng.random()
         if r < 0.4: pass
         elif r < 0.7: L.append('t 0 yield')
